@@ -476,11 +476,20 @@ func runGROWSIBS(c *Ctx) {
 	if ins == nil || grow == nil {
 		return
 	}
-	// the growth test: as in GROWCHECK
+	// the growth test: as in GROWCHECK — a looped (bool, error) call of Insert that is handed a node
 	var test *ssa.Function
 	for _, ci := range CallsOf(ins) {
 		call, ok := ci.(*ssa.Call)
-		if !ok || !inCycle(call.Block()) || len(call.Call.Args) == 0 || !isNodePtr(call.Call.Args[0].Type()) {
+		if !ok || !inCycle(call.Block()) {
+			continue
+		}
+		hasNode := false
+		for _, a := range call.Call.Args {
+			if isNodePtr(a.Type()) {
+				hasNode = true
+			}
+		}
+		if !hasNode {
 			continue
 		}
 		res := call.Call.Signature().Results()
@@ -492,41 +501,78 @@ func runGROWSIBS(c *Ctx) {
 		}
 		if f := ir.Callee(call.Call); f != nil && f.Blocks != nil {
 			test = f
-			// its height parameter is fed with the tree's height
-			for i, a := range call.Call.Args {
-				if b, ok := a.Type().Underlying().(*types.Basic); ok && b.Kind() == types.Uint8 {
-					if mastFieldLoad(a, "height") {
-						c.OK(P.InstrPos(call), fmt.Sprintf("argument %d of %s", i, f.Name()), "the tree's height", false)
-					} else {
-						c.Violation(ins, P.InstrPos(call), "growth test not given the tree's height", "the height the test compares key layers with must be Mast.height")
-					}
-				}
-			}
 		}
 	}
 	if test == nil {
 		c.AnchorMissing("the growth test called by Insert")
 		return
 	}
-	// relation under which the test answers true
+	// relation under which the test answers true (looking through a helper whose answer it passes on)
 	testRel := map[string]ssa.Instruction{}
-	tei := ir.ErrorResultIndex(test.Signature)
-	for _, r := range ir.Returns(test) {
-		if v, isC := ir.ConstBool(r.Results[0]); !isC || !v {
-			continue
+	var relFn *ssa.Function
+	var trueRel func(fn *ssa.Function, depth int)
+	trueRel = func(fn *ssa.Function, depth int) {
+		if depth > 3 {
+			return
 		}
-		if tei >= 0 && !ir.IsNilConst(r.Results[tei]) {
-			continue // the answer next to an error is not looked at
-		}
-		found := false
-		for _, f := range ir.FactsAt(r.Block()) {
-			if rel, ok := layerHeightRel(c, f.Cond, f.Truth); ok {
-				testRel[rel] = r
-				found = true
+		tei := ir.ErrorResultIndex(fn.Signature)
+		for _, r := range ir.Returns(fn) {
+			if tei >= 0 && !ir.IsNilConst(r.Results[tei]) {
+				continue // the answer next to an error is not looked at
+			}
+			rv := ir.ResolveCell(r.Results[0])
+			if v, isC := ir.ConstBool(rv); isC {
+				if !v {
+					continue
+				}
+				found := false
+				for _, f := range ir.FactsAt(r.Block()) {
+					if rel, ok := layerHeightRel(c, f.Cond, f.Truth); ok {
+						testRel[rel] = r
+						relFn = fn
+						found = true
+					}
+				}
+				if !found {
+					c.Undecided(fn, P.InstrPos(r), "growth test answers true without a layer comparison", "a 'true' return of "+fn.Name()+" is not conditioned on a comparison of a key's layer with the height")
+				}
+				continue
+			}
+			if ex, ok := rv.(*ssa.Extract); ok && ex.Index == 0 {
+				if call, ok := ex.Tuple.(*ssa.Call); ok {
+					if g := ir.Callee(call.Call); g != nil && g.Blocks != nil && isOwn(P, g) {
+						trueRel(g, depth+1)
+						continue
+					}
+				}
+			}
+			for _, f := range ir.ExpandFacts([]ir.Fact{{Cond: rv, Truth: true, From: r.Block()}}) {
+				if rel, ok := layerHeightRel(c, f.Cond, f.Truth); ok {
+					testRel[rel] = r
+					relFn = fn
+				}
 			}
 		}
-		if !found {
-			c.Undecided(test, P.InstrPos(r), "growth test answers true without a layer comparison", "a 'true' return of "+test.Name()+" is not conditioned on a comparison of a key's layer with the height")
+	}
+	trueRel(test, 0)
+	// the height the comparison uses is the tree's height: a height parameter is fed with Mast.height by every caller
+	if relFn != nil {
+		for pi, prm := range relFn.Params {
+			bt, ok := prm.Type().Underlying().(*types.Basic)
+			if !ok || bt.Kind() != types.Uint8 {
+				continue
+			}
+			for _, cs := range P.Callers[relFn] {
+				args := cs.Common().Args
+				if pi >= len(args) {
+					continue
+				}
+				if mastFieldLoad(args[pi], "height") {
+					c.OK(P.InstrPos(cs), fmt.Sprintf("argument %d of %s", pi, relFn.Name()), "the tree's height", false)
+				} else {
+					c.Violation(cs.Parent(), P.InstrPos(cs), "growth test not given the tree's height", "the height the test compares key layers with must be Mast.height")
+				}
+			}
 		}
 	}
 	// relation under which grow promotes a key: the block that appends the key to the new root
@@ -596,24 +642,109 @@ func runGROWSHRINK(c *Ctx) {
 		at  ssa.Instruction
 		txt string
 	}
-	// find, in fn, the comparison of Mast.size with Mast.<thresh> that guards the call of target
-	find := func(fn, target *ssa.Function, thresh string, lower bool) (*bound, bool) {
-		var tcall ssa.Instruction
-		for _, ci := range CallsOf(fn) {
-			if ir.Callee(ci.Common()) == target {
-				tcall = ci
+	// the call of target reachable from entry, and the function holding it
+	holderOf := func(entry, target *ssa.Function) (*ssa.Function, ssa.CallInstruction) {
+		reach := c.Facts.Reach(entry)
+		for _, cs := range P.Callers[target] {
+			h := cs.Parent()
+			if reach[ir.Outermost(h)] && h != target {
+				return h, cs
 			}
 		}
-		if tcall == nil {
-			c.AnchorMissing("call of " + target.Name() + " in " + ir.FuncName(fn))
-			return nil, false
+		return nil, nil
+	}
+	// predicate helper behind a condition: `m.needsShrink()`, `ok, err := m.shouldGrow(n)` (result #0)
+	predicate := func(cond ssa.Value) *ssa.Function {
+		var call *ssa.Call
+		switch x := cond.(type) {
+		case *ssa.Call:
+			call = x
+		case *ssa.Extract:
+			if x.Index == 0 {
+				call, _ = x.Tuple.(*ssa.Call)
+			}
 		}
-		facts := ir.FactsAt(tcall.Block())
-		if !lower {
-			// shrinking is a disjunction (size too small, OR top layer empty): the size part is the outcome of
-			// the size test from which the call is reached unconditionally
+		if call == nil {
+			return nil
+		}
+		h := ir.Callee(call.Call)
+		if h == nil || h.Blocks == nil || !isOwn(P, h) {
+			return nil
+		}
+		if rs := h.Signature.Results(); rs.Len() == 0 {
+			return nil
+		} else if bt, ok := rs.At(0).Type().Underlying().(*types.Basic); !ok || bt.Kind() != types.Bool {
+			return nil
+		}
+		return h
+	}
+	// returns of a predicate that can yield `true` (with a nil error, if it has an error result)
+	trueReturns := func(h *ssa.Function) []*ssa.Return {
+		var out []*ssa.Return
+		ei := ir.ErrorResultIndex(h.Signature)
+		for _, r := range ir.Returns(h) {
+			if ei >= 0 && !ir.IsNilConst(r.Results[ei]) {
+				continue
+			}
+			if v, isC := ir.ConstBool(ir.ResolveCell(r.Results[0])); isC && !v {
+				continue
+			}
+			out = append(out, r)
+		}
+		return out
+	}
+	// necessary conditions of tcall: facts that hold whenever it runs (through predicate helpers: what holds on
+	// every return of the helper that can say true)
+	var necessary func(facts []ir.Fact, depth int) []ir.Fact
+	necessary = func(facts []ir.Fact, depth int) []ir.Fact {
+		out := append([]ir.Fact(nil), facts...)
+		if depth > 2 {
+			return out
+		}
+		for _, f := range facts {
+			h := predicate(f.Cond)
+			if h == nil || !f.Truth {
+				continue
+			}
+			type fk struct {
+				s string
+				t bool
+			}
+			var common map[fk]ir.Fact
+			for _, r := range trueReturns(h) {
+				fs := ir.FactsAt(r.Block())
+				rv := ir.ResolveCell(r.Results[0])
+				if _, isC := ir.ConstBool(rv); !isC {
+					fs = append(fs, ir.ExpandFacts([]ir.Fact{{Cond: rv, Truth: true, From: r.Block()}})...)
+				}
+				fs = necessary(fs, depth+1)
+				cur := map[fk]ir.Fact{}
+				for _, x := range fs {
+					cur[fk{ir.Sym(x.Cond), x.Truth}] = x
+				}
+				if common == nil {
+					common = cur
+				} else {
+					for k := range common {
+						if _, ok := cur[k]; !ok {
+							delete(common, k)
+						}
+					}
+				}
+			}
+			for _, x := range common {
+				out = append(out, x)
+			}
+		}
+		return out
+	}
+	// sufficient conditions of tcall (shrinking is a disjunction): outcomes of a test from which the call, or a
+	// `return true` of the predicate that guards it, is reached without a further test
+	sufficient := func(holder *ssa.Function, tcall ssa.Instruction) []ir.Fact {
+		var out []ir.Fact
+		scan := func(fn *ssa.Function, goal func(b *ssa.BasicBlock, from *ssa.BasicBlock) bool) {
 			for _, b := range fn.Blocks {
-				if len(b.Instrs) == 0 {
+				if len(b.Instrs) == 0 || ir.IsDead(b) {
 					continue
 				}
 				iff, ok := b.Instrs[len(b.Instrs)-1].(*ssa.If)
@@ -621,60 +752,56 @@ func runGROWSHRINK(c *Ctx) {
 					continue
 				}
 				for i, sb := range b.Succs {
-					for n := 0; sb != tcall.Block() && len(sb.Succs) == 1 && n < 8; n++ {
-						sb = sb.Succs[0]
+					prev := b
+					for n := 0; !goal(sb, prev) && len(sb.Succs) == 1 && n < 8; n++ {
+						prev, sb = sb, sb.Succs[0]
 					}
-					if sb == tcall.Block() {
-						facts = append(facts, ir.Fact{Cond: iff.Cond, Truth: i == 0, From: b})
-					}
-				}
-			}
-			// the loop test may be a predicate method (`for m.needsShrink()`): an outcome of a size test inside it
-			// that leads straight to `return true`
-			for _, f := range ir.FactsAt(tcall.Block()) {
-				hc, ok := f.Cond.(*ssa.Call)
-				if !ok || !f.Truth {
-					continue
-				}
-				h := ir.Callee(hc.Call)
-				if h == nil || h.Blocks == nil || !isOwn(c.P, h) {
-					continue
-				}
-				for _, b := range h.Blocks {
-					if len(b.Instrs) == 0 {
-						continue
-					}
-					iff, ok := b.Instrs[len(b.Instrs)-1].(*ssa.If)
-					if !ok {
-						continue
-					}
-					for i, sb := range b.Succs {
-						prev := b
-						for n := 0; len(sb.Succs) == 1 && n < 8; n++ {
-							prev, sb = sb, sb.Succs[0]
-						}
-						if len(sb.Instrs) == 0 {
-							continue
-						}
-						r, isRet := sb.Instrs[len(sb.Instrs)-1].(*ssa.Return)
-						if !isRet || len(r.Results) != 1 {
-							continue
-						}
-						rv := r.Results[0]
-						if phi, isPhi := rv.(*ssa.Phi); isPhi && phi.Block() == sb {
-							for pi, p := range sb.Preds {
-								if p == prev {
-									rv = phi.Edges[pi]
-								}
-							}
-						}
-						if v, isC := ir.ConstBool(rv); isC && v {
-							// the condition is on the helper's receiver fields: same Mast
-							facts = append(facts, ir.Fact{Cond: iff.Cond, Truth: i == 0, From: b})
-						}
+					if goal(sb, prev) {
+						out = append(out, ir.Fact{Cond: iff.Cond, Truth: i == 0, From: b})
 					}
 				}
 			}
+		}
+		scan(holder, func(b, _ *ssa.BasicBlock) bool { return b == tcall.Block() })
+		for _, f := range ir.FactsAt(tcall.Block()) {
+			h := predicate(f.Cond)
+			if h == nil || !f.Truth {
+				continue
+			}
+			scan(h, func(b, from *ssa.BasicBlock) bool {
+				if len(b.Instrs) == 0 {
+					return false
+				}
+				r, isRet := b.Instrs[len(b.Instrs)-1].(*ssa.Return)
+				if !isRet {
+					return false
+				}
+				rv := r.Results[0]
+				if phi, isPhi := rv.(*ssa.Phi); isPhi && phi.Block() == b {
+					for pi, p := range b.Preds {
+						if p == from {
+							rv = phi.Edges[pi]
+						}
+					}
+				}
+				v, isC := ir.ConstBool(ir.ResolveCell(rv))
+				return isC && v
+			})
+		}
+		return out
+	}
+	find := func(entry, target *ssa.Function, thresh string, lower bool) (*bound, bool) {
+		holder, tcs := holderOf(entry, target)
+		if holder == nil {
+			c.AnchorMissing("call of " + target.Name() + " reachable from " + ir.FuncName(entry))
+			return nil, false
+		}
+		tcall := tcs.(ssa.Instruction)
+		var facts []ir.Fact
+		if lower {
+			facts = necessary(ir.FactsAt(tcall.Block()), 0)
+		} else {
+			facts = append(necessary(ir.FactsAt(tcall.Block()), 0), sufficient(holder, tcall)...)
 		}
 		for _, f := range facts {
 			bin, ok := f.Cond.(*ssa.BinOp)
@@ -715,11 +842,11 @@ func runGROWSHRINK(c *Ctx) {
 					continue
 				}
 			}
-			// does the test see the size before or after this operation's own update?
-			d := int64(0)
+			// does the test see the size before or after this operation's own update? Both are located in the
+			// entry point: the update store, and the instruction through which the test is reached
 			ld, _ := ir.ResolveCell(sizeV).(*ssa.UnOp)
 			var upd *ssa.Store
-			for _, b := range fn.Blocks {
+			for _, b := range entry.Blocks {
 				for _, in := range b.Instrs {
 					if _, fld, st, ok := mastFieldStore(in); ok && fld == "size" {
 						upd = st
@@ -727,26 +854,32 @@ func runGROWSHRINK(c *Ctx) {
 				}
 			}
 			if upd == nil || ld == nil {
-				c.Undecided(fn, P.InstrPos(tcall), "size update", "cannot relate the size test to the update of Mast.size in "+ir.FuncName(fn))
+				c.Undecided(entry, P.InstrPos(tcall), "size update", "cannot relate the size test to the update of Mast.size in "+ir.FuncName(entry))
 				return nil, false
 			}
 			var at ssa.Instruction = ld
-			if ld.Parent() != fn {
-				// the test sits in a predicate helper: what matters is when the helper is called
-				for _, ci := range CallsOf(fn) {
-					if ir.Callee(ci.Common()) == ld.Parent() {
-						at = ci
+			if ld.Parent() != entry {
+				at = nil
+				for _, ci := range CallsOf(entry) {
+					for _, g := range c.Facts.Callees(ci) {
+						if g == ld.Parent() || c.Facts.Reach(g)[ld.Parent()] {
+							at = ci
+						}
 					}
+				}
+				if at == nil {
+					c.Undecided(entry, P.InstrPos(ld), "size test not reached from the entry point", "the test of Mast.size sits in "+ir.FuncName(ld.Parent())+", which "+ir.FuncName(entry)+" does not call")
+					return nil, false
 				}
 			}
 			after := ir.InstrReaches(upd, at)
 			before := ir.InstrReaches(at, upd)
 			if after == before {
-				c.Undecided(fn, P.InstrPos(ld), "size test both before and after the size update", "the test of Mast.size can run on either side of the update")
+				c.Undecided(entry, P.InstrPos(ld), "size test both before and after the size update", "the test of Mast.size can run on either side of the update")
 				return nil, false
 			}
+			d := int64(0)
 			if before {
-				// the test sees s∓1
 				if lower {
 					d = -1 // Insert: tested value = s - 1
 				} else {
@@ -761,7 +894,7 @@ func runGROWSHRINK(c *Ctx) {
 				case token.GTR:
 					cc = -d + 1
 				default:
-					c.Violation(fn, P.InstrPos(bin), "growth is not conditioned on the size reaching the threshold", "comparison "+op.String()+" between size and "+thresh)
+					c.Violation(entry, P.InstrPos(bin), "growth is not conditioned on the size reaching the threshold", "comparison "+op.String()+" between size and "+thresh)
 					return nil, false
 				}
 			} else {
@@ -771,8 +904,7 @@ func runGROWSHRINK(c *Ctx) {
 				case token.LSS:
 					cc = -d - 1
 				default:
-					c.Violation(fn, P.InstrPos(bin), "shrinking is not conditioned on the size falling to the threshold", "comparison "+op.String()+" between size and "+thresh)
-					return nil, false
+					continue // not the shrinking outcome of this test
 				}
 			}
 			when := "after"
@@ -781,7 +913,7 @@ func runGROWSHRINK(c *Ctx) {
 			}
 			return &bound{cc, bin, fmt.Sprintf("size %s %s, tested %s the size update", op, thresh, when)}, true
 		}
-		c.Violation(fn, P.InstrPos(tcall), target.Name()+" not conditioned on the size threshold", "the call of "+target.Name()+" in "+ir.FuncName(fn)+" is not dominated by a comparison of Mast.size with Mast."+thresh)
+		c.Violation(entry, P.InstrPos(tcall), target.Name()+" not conditioned on the size threshold", "the call of "+target.Name()+" (in "+ir.FuncName(holder)+") is not governed by a comparison of Mast.size with Mast."+thresh)
 		return nil, false
 	}
 	g, ok1 := find(ins, grow, "growAfterSize", true)
@@ -795,19 +927,16 @@ func runGROWSHRINK(c *Ctx) {
 		}
 	}
 	// (2) both loops consult the root's keys
-	consults := func(fn, target *ssa.Function) (bool, string) {
-		var tcall ssa.Instruction
-		for _, ci := range CallsOf(fn) {
-			if ir.Callee(ci.Common()) == target {
-				tcall = ci
-			}
-		}
-		if tcall == nil {
+	consults := func(entry, target *ssa.Function) (bool, string) {
+		holder, tcs := holderOf(entry, target)
+		if holder == nil {
 			return false, ""
 		}
+		fn := holder
+		tcall := tcs.(ssa.Instruction)
 		var keyTest func(cond ssa.Value, d int) (bool, string)
 		keyTest = func(cond ssa.Value, d int) (bool, string) {
-			if d > 2 {
+			if d > 4 {
 				return false, ""
 			}
 			switch x := cond.(type) {
@@ -832,6 +961,9 @@ func runGROWSHRINK(c *Ctx) {
 			case *ssa.Call:
 				h := ir.Callee(x.Call)
 				if h == nil || h.Blocks == nil || !isOwn(c.P, h) {
+					return false, ""
+				}
+				if d > 3 {
 					return false, ""
 				}
 				// a (bool[, error]) helper that looks at a node's keys: ranges over / measures node.Key
